@@ -17,7 +17,7 @@ RULE = ("every list (order and repetition matter) of the stated length over the 
         "non-trivial = distinct (class, platform, list) whose output has fewer elements than the "
         "input (something was merged or dropped)")
 ASSUMPTIONS = ["exact union comparison by cube cover; element count by disjoint decomposition"]
-REQUIRED = ["merged_or_dropped", "unchanged_length", "refused_nc", "refused_foreign", "relined_ok", "repointed_group_reference"]
+REQUIRED = ["merged_or_dropped", "unchanged_length", "refused_nc", "refused_foreign", "relined_ok", "repointed_group_reference", "linked_ok"]
 
 
 def blocks(seed):
@@ -55,6 +55,7 @@ def units(tier, seed):
                     out.append(dict(kind="lists", cls=cls, platform=plat, first=[a, b]))
             out.append(dict(kind="refuse", cls=cls, platform=plat))
             out.append(dict(kind="relined", cls=cls, platform=plat))
+            out.append(dict(kind="linked", cls=cls, platform=plat))
     out.sort(key=lambda u: u["kind"] != "short")
     return out
 
@@ -156,6 +157,8 @@ def run_unit(unit, ctx):
                 _check(cls, plat, first + rest, ctx)
     elif unit["kind"] == "relined":
         _relined(cls, plat, ctx)
+    elif unit["kind"] == "linked":
+        _linked(cls, plat, ctx)
     else:
         _refuse(cls, plat, ctx)
 
@@ -165,6 +168,8 @@ def replay(case, ctx):
         _check(case["cls"], case["platform"], tuple(case["idxs"]), ctx)
     elif case["kind"] == "relined":
         _relined(case["cls"], case["platform"], ctx)
+    elif case["kind"] == "linked":
+        _linked(case["cls"], case["platform"], ctx)
     else:
         _refuse(case["cls"], case["platform"], ctx)
 
@@ -223,6 +228,38 @@ def _group_ref(cls, platform):
     return "group-object G" if platform == "ios" else None
 
 
+def _linked(cls, platform, ctx):
+    """Objects whose histories are linked (one built from the other's exported data incl. uuid, then
+    re-pointed) are still different addresses: nothing may be dropped because identifiers agree."""
+    from cisco_acl import Address, AddressAg, address, address_ag
+
+    klass, func = (Address, address.collapse) if cls == "Address" else (AddressAg, address_ag.collapse)
+    blk = blocks(ctx.seed)
+    for i, j, k in product(range(7, 15), repeat=3):
+        ti, tj, tk = (_spell(cls, platform, *blk[x], variant=0) for x in (i, j, k))
+        if None in (ti, tj, tk) or len({i, j, k}) < 3:
+            continue
+        ctx.ev()
+        case = dict(kind="linked", cls=cls, platform=platform, texts=[ti, tj, tk])
+        try:
+            a = klass(ti, platform=platform)
+            b = klass(**a.data(uuid=True))
+            b.line = tj
+            c = klass(**dict(a.data(uuid=True), line=tk))
+            out = func([a, b, c])
+        except Exception as ex:  # noqa
+            ctx.viol(f"{cls}.collapse:linked_exception", case, repr(ex), "collapsed list")
+            continue
+        got = tuple(S.prefix_cube(int(o.ipnet.network_address), o.ipnet.prefixlen) for o in out)
+        want = tuple(S.prefix_cube(*blk[x]) for x in (i, j, k))
+        if not S.addr_equal(got, want):
+            ctx.viol(f"{cls}.collapse:objects_with_equal_identifiers_dropped", case, [o.line for o in out],
+                     [ti, tj, tk])
+        else:
+            ctx.out("linked_ok")
+    ctx.sample("linked", dict(cls=cls, platform=platform))
+
+
 def _check_empty(cls, platform, ctx):
     from cisco_acl import address, address_ag
 
@@ -241,6 +278,8 @@ def _refuse(cls, platform, ctx):
     blk = blocks(ctx.seed)
     good = [klass(_spell(cls, platform, *blk[i], variant=0), platform=platform) for i in (1, 2, 5)]
     nc_text = f"{S.int2ip(G.window(ctx.seed))} 0.0.1.3"
+    # the same lists with elements created under DIFFERENT limits (0 admits contiguous masks only)
+    good0 = [klass(_spell(cls, platform, *blk[i], variant=0), platform=platform, max_ncwb=0) for i in (1, 2, 5)]
     foreign = [other("host 10.0.0.1", platform=platform), "10.0.0.0/24", None, 5]
     cases = []
     if not (cls == "AddressAg" and platform == "ios"):
@@ -248,8 +287,10 @@ def _refuse(cls, platform, ctx):
     for f in foreign:
         cases.append(("refused_foreign", f))
     for label, bad in cases:
-        for pos in range(len(good) + 1):
-            lst = good[:pos] + [bad] + good[pos:]
+        for pos in range(2 * (len(good) + 1)):
+            base_ = good if pos <= len(good) else good0
+            pos = pos if pos <= len(good) else pos - len(good) - 1
+            lst = base_[:pos] + [bad] + base_[pos:]
             ctx.ev()
             ctx.nt((cls, platform, label, pos, repr(bad)))
             case = dict(kind="refuse", cls=cls, platform=platform, pos=pos, bad=repr(bad))
